@@ -27,7 +27,7 @@ C = M + 'CcmMode'
 
 ALL = ['update', 'encrypt', 'decrypt', 'digest', 'verify']
 NEXTS = {'all': ALL, 'ed': ['encrypt', 'digest'], 'd': ['digest'], 'dv': ['decrypt', 'verify'], 'v': ['verify']}
-CFGS = ('nn', 'nd', 'dn', 's1', 's2', 'st')
+CFGS = ('nn', 'nd', 'dn', 's1', 's2', 't1', 't2')
 PARKED = ('nn', 'nd', 'dn')
 
 # MacStatus.NOT_STARTED / PROCESSING_AUTH_DATA / PROCESSING_PLAINTEXT are 0 / 1 / 2
@@ -106,15 +106,16 @@ VALID = [
     'self._mac_tag is not None ==> len(self._mac_tag) == self._mac_len',
 ]
 INV = {('inv%02d' % i): cl for i, cl in enumerate(VALID)}        # valid(self) at exit, one obligation per atom
+CORE = {k: cl for k, cl in INV.items() if '_next' not in cl}      # what the internal _digest needs and keeps (digest()/verify() set _next first)
 
 # spec functions that stay uninterpreted outside the functions that establish / consume their definitions
 FMT = ['spec.aead2.ccm_b0', 'spec.aead2.ccm_hdr']
-OPQ = FMT + ['spec.aead2.ccm_tag', 'spec.aead2.ccm_s0', 'spec.aead2.ccm_ctr0', 'spec.aead2.cat']
+OPQ = FMT + ['spec.aead2.ccm_tag', 'spec.aead2.ccm_s0', 'spec.aead2.ccm_ctr0', 'spec.aead2.cat', 'spec.aead2.ccm_hdr_len']
 
 
 def ccm_class(nxt='all', cfg='s1', shape=1):
     """cfg: 'nn' (assoc_len, msg_len both undeclared) | 'nd' (assoc_len undeclared) | 'dn' (msg_len undeclared): parking phase;
-    's1' / 's2': MAC running, AAD / payload phase, no tag yet; 'st': tag computed; 'init': no field yet"""
+    's1' / 's2': MAC running, AAD / payload phase, no tag yet; 't1' / 't2': the same with the tag computed; 'init': no field yet"""
     if cfg == 'init':
         return ClassContract(C, fields={}, valid=list(VALID))
     f = {'block_size': 'int', 'nonce': 'bytes', '_factory': FACTORY, '_key': 'bytes', '_mac_len': 'int', '_cipher_params': NO_PARAMS,
@@ -125,12 +126,40 @@ def ccm_class(nxt='all', cfg='s1', shape=1):
                   '_cache': 'list(%s)' % ','.join(['bytes'] * shape), '_mac_tag': 'none', '_mac_status': ('const', 0)})
     else:
         f.update({'_msg_len': 'int', '_assoc_len': 'int', '_cache': 'bytes', '_t': 'bytes',
-                  '_mac_tag': 'bytes' if cfg == 'st' else 'none',
-                  '_mac_status': 'int' if cfg == 'st' else ('const', int(cfg[1]))})
+                  '_mac_tag': 'bytes' if cfg[0] == 't' else 'none', '_mac_status': ('const', int(cfg[1]))})
     return ClassContract(C, fields=f, valid=list(VALID))
 
 
-def registry(nxt='all', cfg='s1', shape=1, upd='run', data='bytes'):
+FIELD_T = {'self._next': None, 'self._assoc_len': 'int', 'self._msg_len': 'int', 'self._cumul_assoc_len': 'int', 'self._cumul_msg_len': 'int',
+           'self._mac_status': 'int', 'self._mac_tag': 'bytes', 'self._cache': 'bytes', 'self._t': 'bytes', 'self._mac.g_fed': 'bytes',
+           'self._cipher.g_pos': 'int'}
+
+
+def NEXT_MOD(d, value):
+    """... plus self._next, whose value after the call is the given list of names (= the ensures clause `next`, which is what is proved)"""
+    d = dict(d)
+    d['self._next'] = ('const', list(value))
+    return d
+
+
+def frame(paths, parked, cache_stays_list=False):
+    """modifies clause with the types of the values at exit (the declared field types describe the entry configuration only);
+    in the parking phase the parked list itself is written too"""
+    d = {}
+    if parked:
+        d['self._cache.*'] = 'none'
+    for p in paths:
+        if p == 'self._next':
+            continue
+        d[p] = FIELD_T[p]
+    if cache_stays_list and parked:
+        d.pop('self._cache', None)
+    return d
+
+
+def registry(nxt='all', cfg='s1', shape=1, upd='run', data='bytes', cfg2=None):
+    """cfg: configuration of the entry state of the function under proof; cfg2: configuration in which the digest()/verify() family is
+    CALLED inside a composite (encrypt_and_digest / decrypt_and_verify), when it differs from cfg"""
     reg = registry_with_natives()
     reg.add(ccm_class(nxt, cfg, shape))
     parked = cfg in PARKED
@@ -205,7 +234,7 @@ def registry(nxt='all', cfg='s1', shape=1, upd='run', data='bytes'):
                               'count': 'self._cumul_assoc_len == old(self._cumul_assoc_len) + len(assoc_data)',
                               'kept': 'self._assoc_len == old(self._assoc_len) and self._msg_len == old(self._msg_len) and self._mac_status == old(self._mac_status)',
                               **INV},
-                     modifies=['self._next', 'self._cumul_assoc_len', 'self._cache.*', 'self._cache', 'self._t', 'self._mac.g_fed'],
+                     modifies=NEXT_MOD(frame(['self._cumul_assoc_len'] + ([] if parked else ['self._cache', 'self._t', 'self._mac.g_fed']), parked, True), ALL),
                      inline=[C + '._update'] if parked else [], opaque=OPQ))
     # ------------------------------------------------------------------------------------------------ encrypt / decrypt (C01, C02, C09, C10, C11)
     aad_short = '(self._assoc_len is not None and self._cumul_assoc_len < self._assoc_len)'
@@ -234,41 +263,116 @@ def registry(nxt='all', cfg='s1', shape=1, upd='run', data='bytes'):
                                   'lens': 'self._assoc_len == (old(self._assoc_len) if old(self._assoc_len) is not None else old(self._cumul_assoc_len)) and '
                                           'self._msg_len == (old(self._msg_len) if old(self._msg_len) is not None else len(%s))' % arg,
                                   'phase': 'self._mac_status == 2', **INV},
-                         modifies=['self._next', 'self._assoc_len', 'self._msg_len', 'self._cumul_msg_len', 'self._mac_status',
-                                   'self._cache.*', 'self._cache', 'self._t', 'self._mac.g_fed', 'self._cipher.g_pos'],
-                         opaque=OPQ + ['spec.aead2.ccm_crypt']))
+                         modifies=NEXT_MOD(frame(['self._assoc_len', 'self._msg_len', 'self._cumul_msg_len', 'self._mac_status',
+                                                  'self._cache', 'self._t', 'self._mac.g_fed', 'self._cipher.g_pos'], parked),
+                                           eval(nxt_und if cfg in ('nn', 'dn') else nxt_decl)),
+                         opaque=OPQ))
     # ------------------------------------------------------------------------------------------------ _digest / digest / verify (C01, C10)
     # the tag of SP 800-38C 6.1 for the associated data and payload seen so far; refused when data is short of the declared lengths;
     # once computed, the cached tag is returned / compared and nothing changes
     msg_short = '(self._msg_len is not None and self._cumul_msg_len != self._msg_len)'
     refuse = '(self._mac_tag is None and (%s or %s))' % (aad_short, msg_short)
-    if cfg == 'st':
-        TAG_OLD = TAG_IN = 'self._mac_tag'
-        TAG_OLD = 'old(self._mac_tag)'
-        post = dict(INV, tag='self._mac_tag == old(self._mac_tag)')
-        DIG_MOD = []
+    steps = {}
+    entry_cfg, entry_views = cfg, (A_OLD, P_OLD, A_IN, P_IN)
+    if cfg2 is not None:
+        cfg = cfg2
+        parked = cfg in PARKED
+        A_OLD, P_OLD = views(cfg, old=True)
+        A_IN, P_IN = views(cfg)
+    if cfg[0] == 't':
+        TAG_IN = 'self._mac_tag'
+        post = {'tag': 'self._mac_tag == old(self._mac_tag)'}
+        DIG_MOD = {}
     else:
         TAG_OLD = 'spec.aead2.ccm_tag(self._key, self.nonce, self._mac_len, %s, %s)' % (A_OLD, P_OLD)
         TAG_IN = 'spec.aead2.ccm_tag(self._key, self.nonce, self._mac_len, %s, %s)' % (A_IN, P_IN)
         post = {'tag': 'self._mac_tag == %s and len(self._mac_tag) == self._mac_len' % TAG_OLD,
                 'lens': 'self._cumul_assoc_len == self._assoc_len and self._cumul_msg_len == self._msg_len and self._assoc_len == old(self._cumul_assoc_len) '
-                        'and self._msg_len == old(self._cumul_msg_len)', **INV}
-        DIG_MOD = ['self._assoc_len', 'self._msg_len', 'self._mac_status', 'self._mac_tag', 'self._cache.*', 'self._cache', 'self._t', 'self._mac.g_fed']
-    reg.add(Contract(C + '._digest', params={}, requires=['valid(self)'],
+                        'and self._msg_len == old(self._cumul_msg_len)'}
+        DIG_MOD = frame(['self._assoc_len', 'self._msg_len', 'self._mac_status', 'self._mac_tag', 'self._cache', 'self._t', 'self._mac.g_fed'], parked)
+        # proof steps: the stream is B_0 || header || A || 0* || P, so after the final padding the CBC object has been fed exactly ccm_fmt(...)
+        HL = 'spec.aead2.ccm_hdr_len(self._assoc_len)'
+        steps['a_len'] = 'len(%s) == self._assoc_len' % A_OLD
+        steps['p_len'] = 'len(%s) == self._msg_len' % P_OLD
+        if cfg == 's2':
+            # (recalled entry facts first: the solver ladder also tries the last few hypotheses only)
+            steps['r_prefix'] = '%s.startswith(%s + %s)' % (OS, B0, HDR)
+            steps['r_len'] = 'len(%s) + len(%s) == %s' % (B0, HDR, AST)
+            steps['r_bounds'] = '%s <= %s and %s <= len(%s)' % (AEND, PST, PST, OS)
+            steps['split'] = '%s == %s + %s + %s + %s[%s:%s] + %s' % (OS, B0, HDR, A_OLD, OS, AEND, PST, P_OLD)
+            steps['zeros'] = '%s[%s:%s] == spec.aead2.zpad(%s + self._assoc_len)' % (OS, AEND, PST, HL)
+            steps['pad'] = 'spec.aead2.zpad(len(%s)) == spec.aead2.zpad(self._msg_len)' % OS
+        elif cfg == 's1':
+            steps['split'] = '%s == %s + %s + %s' % (OS, B0, HDR, A_OLD)
+            steps['pad'] = 'spec.aead2.zpad(len(%s)) == spec.aead2.zpad(%s + self._assoc_len)' % (OS, HL)
+        else:
+            steps['pad'] = 'spec.aead2.zpad(len(%s) + len(%s) + len(%s)) == spec.aead2.zpad(%s + self._assoc_len)' % (B0, HDR, A_OLD, HL)
+        steps['fed'] = 'self._mac.g_fed == spec.aead2.ccm_fmt(self.nonce, self._mac_len, %s, %s)' % (A_OLD, P_OLD)
+    reg.add(Contract(C + '._digest', params={}, requires=list(CORE.values()),
                      raises={'ValueError': ('iff', refuse)},
-                     ensures=dict(post, result='result == self._mac_tag'),
-                     modifies=DIG_MOD, opaque=FMT + ['spec.aead2.ccm_s0', 'spec.aead2.ccm_ctr0', 'spec.aead2.cat']))
+                     ensures=dict(post, result='result == self._mac_tag', **CORE), lemmas={'exit': steps},
+                     modifies=DIG_MOD, opaque=FMT + ['spec.aead2.ccm_s0', 'spec.aead2.ccm_ctr0', 'spec.aead2.cat', 'spec.aead2.ccm_hdr_len'],
+                     result='bytes', options={'assume_valid': False}))
+    post = dict(post, **INV)
     reg.add(Contract(C + '.digest', params={},
                      raises={'TypeError': ('iff', '"digest" not in self._next'), 'ValueError': ('iff', '"digest" in self._next and ' + refuse)},
                      unchanged_on_raise=['TypeError'],
                      ensures=dict(post, result='result == self._mac_tag', next='self._next == ["digest"]'),
-                     modifies=DIG_MOD + ['self._next'], opaque=OPQ))
+                     modifies=NEXT_MOD(DIG_MOD, ['digest']), result='bytes', opaque=OPQ))
     reg.add(Contract(C + '.verify', params={'received_mac_tag': data},
                      raises={'TypeError': ('iff', '"verify" not in self._next'),
                              'ValueError': ('iff', '"verify" in self._next and (%s or received_mac_tag != %s)' % (refuse, TAG_IN))},
                      unchanged_on_raise=['TypeError'],
                      ensures=dict(post, next='self._next == ["verify"]', accepted='received_mac_tag == self._mac_tag', result='result is None'),
-                     modifies=DIG_MOD + ['self._next'], opaque=OPQ))
+                     modifies=NEXT_MOD(DIG_MOD, ['verify']), opaque=OPQ))
+    # ------------------------------------------------------------------------------------------------ encrypt_and_digest / decrypt_and_verify (C01, C02)
+    # one-shot use from any state in which encrypt()/decrypt() is permitted: the tag is the SP 800-38C tag of (A so far, P so far || this piece)
+    cfg = entry_cfg
+    parked = cfg in PARKED
+    A_OLD, P_OLD, A_IN, P_IN = entry_views
+    A2, P2 = views('s2')
+    for kind, arg in (('encrypt_and_digest', 'plaintext'), ('decrypt_and_verify', 'ciphertext')):
+        base = 'encrypt' if kind[0] == 'e' else 'decrypt'
+        too_long = '(self._msg_len is None and len(%s) >= %s)' % (arg, MAXLEN)
+        incomplete = '(self._msg_len is not None and self._cumul_msg_len + len(%s) != self._msg_len)' % arg
+        crypt_in = 'spec.aead2.ccm_crypt(self._key, self.nonce, self._cumul_msg_len, %s)' % arg
+        pt_in = arg if base == 'encrypt' else crypt_in
+        TAG = 'spec.aead2.ccm_tag(self._key, self.nonce, self._mac_len, %s, %s + %s)'
+        tag_in = TAG % (A_IN, P_IN, pt_in)
+        bad_tag = '' if base == 'encrypt' else ' or received_mac_tag != ' + tag_in
+        params = {arg: data, 'output': 'none'} if base == 'encrypt' else {arg: data, 'received_mac_tag': data, 'output': 'none'}
+        crypt_old = 'spec.aead2.ccm_crypt(self._key, self.nonce, old(self._cumul_msg_len), %s)' % arg
+        tag_old = TAG % (A_OLD, P_OLD, arg if base == 'encrypt' else crypt_old)
+        ens = {'next': 'self._next == %s' % ('["digest"]' if base == 'encrypt' else '["verify"]'),
+               'tag': 'self._mac_tag == %s' % tag_old,
+               'result': ('result == (%s, self._mac_tag)' % crypt_old) if base == 'encrypt' else ('result == %s' % crypt_old)}
+        if base == 'decrypt':
+            ens['accepted'] = 'received_mac_tag == self._mac_tag'
+        reg.add(Contract(C + '.' + kind, params=params,
+                         raises={'TypeError': ('iff', '"%s" not in self._next' % base),
+                                 'ValueError': ('iff', '"%s" in self._next and (%s or %s or %s%s)' % (base, aad_short, too_long, incomplete, bad_tag))},
+                         unchanged_on_raise=['TypeError'], ensures=dict(ens, **INV),
+                         lemmas={'exit': {'aad_view': '%s == %s' % (A2, A_OLD), 'msg_view': '%s == %s + %s' % (P2, P_OLD, arg if base == 'encrypt' else crypt_old)}},
+                         modifies=NEXT_MOD(frame(['self._assoc_len', 'self._msg_len', 'self._cumul_msg_len', 'self._mac_status', 'self._mac_tag',
+                                                  'self._cache', 'self._t', 'self._mac.g_fed', 'self._cipher.g_pos'], parked),
+                                           ['digest'] if base == 'encrypt' else ['verify']),
+                         opaque=OPQ))
+    # ------------------------------------------------------------------------------------------------ __init__ (C02 glue, C11, C01)
+    # parameter domain of SP 800-38C (t even in 4..16, n in 7..13, Plen < 2**(8q)); Ctr_0 = [q-1] || N || 0 (A.3); S_0 = first key stream
+    # block; the MAC starts at once when both lengths are declared (stream == B_0 || header)
+    too_long = '(msg_len is not None and msg_len >= spec.aead2.pow256(15 - len(nonce)))'
+    reg.add(Contract(C + '.__init__', params={'factory': FACTORY, 'key': 'bytes', 'nonce': 'bytes', 'mac_len': 'int', 'msg_len': 'nat|none',
+                                              'assoc_len': 'int[0..18446744073709551615]|none', 'cipher_params': NO_PARAMS},
+                     raises={'ValueError': ('iff', 'factory.block_size != 16 or mac_len not in (4, 6, 8, 10, 12, 14, 16) or len(nonce) < 7 or len(nonce) > 13 '
+                                                   'or %s or not spec.aead2.key_ok(len(key))' % too_long)},
+                     ensures=dict(INV, nonce='self.nonce == nonce', key='self._key == key', mac_len='self._mac_len == mac_len',
+                                  lens='self._msg_len == msg_len and self._assoc_len == assoc_len and self._cumul_assoc_len == 0 and self._cumul_msg_len == 0',
+                                  next='self._next == ["update", "encrypt", "decrypt", "digest", "verify"]',
+                                  tag='self._mac_tag is None',
+                                  started='self._mac_status == (1 if (msg_len is not None and assoc_len is not None) else 0)',
+                                  stream='self._mac_status == 1 ==> %s == %s + %s' % (S, B0, HDR),
+                                  parked='self._mac_status == 0 ==> self._cache == []'),
+                     modifies=None, opaque=FMT + ['spec.aead2.cat', 'spec.aead2.ccm_hdr_len'], options={'assume_valid': False}))
     return reg
 
 
